@@ -2146,7 +2146,7 @@ def r8_13(rep):
     rep.need(n >= 9, "`derivable_traits |= DerivableTraits::X` sites")
 
 
-@RULES.rule("R8.14", "the hand-written Debug impl never formats a value built from a type nobody vouched for", floor=3)
+@RULES.rule("R8.14", "the hand-written Debug impl never formats a value built from a type nobody vouched for", floor=4)
 def r8_14(rep):
     """`Item::impl_debug` leaves a field out when its own type is not allowlisted ("we don't know if blocklisted items impl Debug").
     An array is allowlisted as an item even when its ELEMENT type is blocklisted: `struct S { struct Blocked arr[3]; }` with
@@ -2188,6 +2188,12 @@ def r8_14(rep):
         rep.check(asks, "debug-instantiation-asks-arguments", "the instantiation arm asks whether every template argument can be formatted" if asks else
                   "the instantiation arm formats `self.<field>` without looking at the template arguments: `Tmpl<Blocked>` needs `Blocked: Debug`",
                   b.loc(a["body"]))
+        # an argument that is "described" without being formatted (a type parameter: "Non-debuggable generic") does not implement Debug
+        # either: the answer for the argument has to be looked at, not just its presence
+        looks = "is_empty" in names
+        rep.check(looks, "debug-instantiation-arguments-formattable", "an argument that is not formatted itself keeps the instantiation from being formatted" if looks else
+                  "the instantiation arm only asks whether an answer exists for each argument: `Bar<T>` inside `impl<T> Debug for Foo<T>` is "
+                  "formatted although `T` need not implement Debug (E0277)", b.loc(a["body"]))
 
 
 @RULES.rule("R8.15", "derives are decided for the item whose definition is being emitted", floor=3)
